@@ -386,7 +386,12 @@ func (h *Heap) elemPtr(sl Val, idx string) Val {
 	if h.vc.BV {
 		panic(unsupported("slice indexing in bit-vector mode"))
 	}
-	return Val{T: types.NewPointer(et), S: sl.Fs[0].S, P: &Ptr{Kind: ptrElem, Root: et, Idx: app("+", sl.Fs[1].S, i)}}
+	abs := app("+", sl.Fs[1].S, i)
+	if pre := "(- "; strings.HasPrefix(i, pre) && strings.HasSuffix(i, " "+sl.Fs[1].S+")") {
+		// (off + (A - off)) = A: indices handed over as absolute positions minus the offset
+		abs = i[len(pre) : len(i)-len(sl.Fs[1].S)-2]
+	}
+	return Val{T: types.NewPointer(et), S: sl.Fs[0].S, P: &Ptr{Kind: ptrElem, Root: et, Idx: abs}}
 }
 
 func (h *Heap) mkSlice(t types.Type, base, off, ln, cp string) Val {
